@@ -304,9 +304,17 @@ func runC17Case(dir string, peers []c17Peer, tag string, res *ev.Result) {
 	probe := tag + "-probe"
 	var perr error
 	for i := 0; i < 200; i++ { // the good plugin is activated shortly after its synchronization
-		b := rt.A.BlockPluginSync()
-		perr = rt.A.RunPodSandbox(context.Background(), &api.StateChangeEvent{Pod: &api.PodSandbox{Id: probe}})
-		b.Unblock()
+		pd := make(chan struct{})
+		go func() {
+			defer close(pd)
+			b := rt.A.BlockPluginSync()
+			perr = rt.A.RunPodSandbox(context.Background(), &api.StateChangeEvent{Pod: &api.PodSandbox{Id: probe}})
+			b.Unblock()
+		}()
+		if rig.Await(pd, 5*time.Second, 15*time.Second) == "hang" {
+			viol("good-plugin-blocked", fmt.Sprintf("an event relayed after %d misbehaving plugins and a well-formed one registered does not return; goroutines:\n%s", len(peers), nriStacks()))
+			return
+		}
 		if _, ok := goodEvents.Load(probe); ok {
 			break
 		}
